@@ -400,6 +400,7 @@ func registerBigIntrinsics(in map[string]Intrinsic) {
 			return a[0], ctlNext
 		}
 		r := Var(w.freshName("sqrt!"), SInt)
+		w.st.auxVars = append(w.st.auxVars, r)
 		w.st.addPC(ILe(IntI(0), r))
 		w.st.addPC(ILe(IntBin(OIMul, r, r), x))
 		r1 := IntBin(OIAdd, r, IntI(1))
